@@ -154,3 +154,15 @@ func verifKeyOf(k any) string {
 	}
 	return ""
 }
+
+// verifInterfaceOfConn stands in for interfaceOfConn in the scratch copy: the client of a
+// UDP-multicast session looks the local address of its control connection up among the machine's
+// interfaces (net.Interfaces, a question to the operating system that no seam covers). Loopback
+// addresses are left to the real function; any other address belongs to a simulated node and is
+// answered with a simulated interface (the stand-in of pkg/multicast ignores the interface).
+func verifInterfaceOfConn(c net.Conn) (*net.Interface, error) {
+	if a, ok := c.LocalAddr().(*net.TCPAddr); ok && !a.IP.IsLoopback() {
+		return &net.Interface{Index: 1, MTU: 1500, Name: "sim0", Flags: net.FlagUp | net.FlagMulticast}, nil
+	}
+	return interfaceOfConn(c)
+}
